@@ -64,7 +64,7 @@ Section WithCfg.
   Notation RE := (reval (rl_lim L) (fl_lim L) (hd_lim L) (ck_lim L) (rcode_of L) MAXC TH CC fuel).
   Notation RZ := (rzeval MAXC).
 
-  Definition stv (v : receiver) (inp : str) (p : bool) (rx cl rq : Z) (nx : str) : rstate := mk_rst (rv_store v) inp p rx cl rq nx.
+  Definition stv (v : receiver) (inp : str) (p : bool) (rx cl rq : Z) (nx : str) : rstate := mk_rst (rv_store v) inp p rx cl rq nx false.
 
   (* ---- control structure, one step at a time ---- *)
   Lemma rx_seq a b s : RX (RSeq a b) s = match RX a s with Some (None, s1) => RX b s1 | r => r end.
@@ -181,7 +181,7 @@ Section WithCfg.
   Proof.
     change (RX (RLetParsed (RNot RReqValid)) (stv v i p rx cl rq nx))
       with (match RE (RNot RReqValid) (stv v i p rx cl rq nx) with
-            | Some (b, s1) => Some (@None rxv, mk_rst (r_store s1) (r_in s1) b (r_rx s1) (M_Recv.r_cl s1) (r_req s1) (r_next s1)) | None => None end).
+            | Some (b, s1) => Some (@None rxv, mk_rst (r_store s1) (r_in s1) b (r_rx s1) (M_Recv.r_cl s1) (r_req s1) (r_next s1) (r_nocl s1)) | None => None end).
     rewrite re_not, e_req_valid. reflexivity.
   Qed.
 
